@@ -407,6 +407,7 @@ impl Indexable for ast::BangOperator {
                                     | Type::Bits(_)
                                     | Type::Bit
                             ) => {}
+                        Type::Unknown | Type::Uninitialized => {}
                         _ => {
                             ctx.error(
                                 list_range,
